@@ -99,23 +99,23 @@ Theorem C16_render_eval : forall p v rest,
 Proof. exact render_eval. Qed.
 Print Assumptions C16_render_eval.
 
-(* FULL statement (a Definition; evaluated by the harness on every run, see evidence): at every
-   repr()/ascii() site the guards of the generator admit values of exactly the builtin literal
-   types only.  It is false while /repo guards Literal values with isinstance(), which also admits
-   instances of str/bytes/int SUBCLASSES whose own __repr__ is then spliced as code (finding
-   C16/literal-subclass-repr); the partial theorem below is about values of exactly the builtin types. *)
-Definition C16_sites_full : Prop := forallb site_ok_full splice_sites = true.
+(* at every repr()/ascii() site the guards of the generator admit values of exactly the builtin
+   literal types only: type(X) in (...) tests, or isinstance() tests whose value is rendered through
+   the builtin base type's __repr__ (helpers.literal_repr, body checked by K10), so that a str/bytes/int
+   SUBCLASS with its own __repr__ cannot put text into the generated code (defect 12c7fd8) *)
+Theorem C16_sites_full : forallb site_ok_full splice_sites = true.
+Proof. exact sites_full. Qed.
+Print Assumptions C16_sites_full.
 
-(* PARTIAL (domain: values whose type is exactly str/bytes/int/bool/NoneType): at every
-   repr()/ascii() site of /repo only literal kinds or their subclasses arrive, and every exact
-   str/bytes/int/bool/None value is read back exactly *)
-Theorem C16_site_value_partial : forall st, In st splice_sites -> s_kind st = KRepr \/ s_kind st = KAscii ->
-  s_types st <> [] /\ forallb literal_kind_sub (s_types st) = true /\
+(* only literal kinds arrive at a repr()/ascii() site of /repo, and every str/bytes/int/bool/None
+   value is read back exactly *)
+Theorem C16_site_value : forall st, In st splice_sites -> s_kind st = KRepr \/ s_kind st = KAscii ->
+  s_types st <> [] /\ forallb literal_kind (s_types st) = true /\
   forall v p rest, atom_ty v <> None -> wf_lit v -> oracle_ok p ->
     eval_lit (site_value_text (s_kind st) p v ++ codes (s_after st) ++ rest)
     = Some (v, codes (s_after st) ++ rest).
 Proof. exact site_value. Qed.
-Print Assumptions C16_site_value_partial.
+Print Assumptions C16_site_value.
 
 (* get_field_default_literal as read from /repo on this run is a safe branch table ... *)
 Theorem C16_default_branches_safe : branches_safe default_literal_branches = true.
